@@ -29,6 +29,16 @@ macro_rules! common {
                 match self { Sh::Ball(..) => "ball", Sh::Cub(..) => "cub", Sh::Cap(..) => "cap", Sh::Seg(..) => "seg", Sh::Tri(..) => "tri",
                              Sh::Hs(..) => "hs", Sh::Hull(..) => "hull", Sh::Cyl(..) => "cyl", Sh::Cone(..) => "cone", Sh::RCub(..) => "rcub" }
             }
+            /// the degenerate class of the shape itself ("" for a regular one); appended to the position class of a case
+            pub fn degen(&self) -> &'static str {
+                match self {
+                    Sh::Seg(a, b) => if a == b { "+seg-zero-length" } else if collinear(&z(), a, b) { "+seg-through-origin" } else { "" },
+                    Sh::Cap(a, b, _) => if a == b { "+cap-zero-length" } else { "" },
+                    Sh::Tri(a, b, c) => if a == b && b == c { "+tri-point" } else if a == b || b == c || a == c { "+tri-coincident-vertices" }
+                                        else if collinear(a, b, c) { "+tri-collinear" } else { "" },
+                    _ => "",
+                }
+            }
             pub fn enc(&self) -> String {
                 match self {
                     Sh::Ball(r) => format!("ball {}", hx(*r)),
@@ -81,6 +91,7 @@ macro_rules! common {
             }
         }
 
+        fn collinear(a: &V, b: &V, c: &V) -> bool { let u = b - a; let w = c - a; u.dot(&u) * w.dot(&w) - u.dot(&w) * u.dot(&w) == 0.0 }
         fn fres(r: Result<String, query::Unsupported>) -> String { match r { Ok(s) => s, Err(_) => "unsup".into() } }
         fn fman(ms: &[Man]) -> String {
             let mut s = format!("nm {}", ms.len());
@@ -258,7 +269,7 @@ macro_rules! common {
             for _ in 0..700 * k {
                 let s1 = gen_shape(r); let s2 = gen_shape(r);
                 let (m, cls) = gen_iso12(r, &s1, &s2);
-                let head = format!("{} {} {} {}", cls, s1.enc(), s2.enc(), hiso(&m));
+                let head = format!("{}{}{} {} {} {}", cls, s1.degen(), s2.degen(), s1.enc(), s2.enc(), hiso(&m));
                 let par = *r.pick(&[0.0, 0.0, 1e-9, 0.5, 2.0]);
                 for f in ["dist", "cp", "ct", "it", "cm"] { out.push((format!("{}{}", f, DIM), format!("{} {}", head, hx(par)))); }
                 let vel = match r.below(5) { 0 => z(), 1 => axis(r) * 1e-300, 2 => axis(r) * 1e12, 3 => axis(r), _ => oblique(r) };
@@ -270,7 +281,7 @@ macro_rules! common {
                 let (m, cls) = gen_iso12(r, &s1, &s2);
                 let l1 = match r.below(3) { 0 => z(), 1 => axis(r), _ => oblique(r) * 0.5 };
                 let l2 = match r.below(3) { 0 => z(), 1 => axis(r) * 1e-9, _ => oblique(r) };
-                out.push((format!("nl{}", DIM), format!("{} {} {} {} {} {} {} {} {} {} {}", cls, s1.enc(), s2.enc(), hiso(&Isometry::identity()), hv(&l1), gen_ang(r),
+                out.push((format!("nl{}", DIM), format!("{}{}{} {} {} {} {} {} {} {} {} {} {}", cls, s1.degen(), s2.degen(), s1.enc(), s2.enc(), hiso(&Isometry::identity()), hv(&l1), gen_ang(r),
                                                       hiso(&m), hv(&l2), gen_ang(r), hx(*r.pick(&[0.0, 1.0, 4.0])), b(r.bool()))));
             }
             // ---- convex/ball manifolds and pfm/pfm manifolds with thin shapes through their own origin (exact on-feature centres)
@@ -279,7 +290,7 @@ macro_rules! common {
                 let s2 = match r.below(3) { 0 => Sh::Ball(ext(r)), 1 => gen_seg(r), _ => gen_shape(r) };
                 let (m, cls) = gen_iso12(r, &s1, &s2);
                 let (a1, a2, mm) = if r.below(4) == 0 { (&s2, &s1, m.inverse()) } else { (&s1, &s2, m) };
-                out.push((format!("cm{}", DIM), format!("{} {} {} {} {}", cls, a1.enc(), a2.enc(), hiso(&mm), hx(*r.pick(&[0.0, 0.5, 1e-9])))));
+                out.push((format!("cm{}", DIM), format!("{}{}{} {} {} {} {}", cls, a1.degen(), a2.degen(), a1.enc(), a2.enc(), hiso(&mm), hx(*r.pick(&[0.0, 0.5, 1e-9])))));
             }
             // ---- single-shape queries
             for _ in 0..500 * k {
@@ -289,18 +300,18 @@ macro_rules! common {
                 let (o, cls) = match r.below(4) { 0 => (anchor, "origin-on-feature"), 1 => (z(), "origin-at-centre"),
                                                   2 => (anchor + axis(r) * *r.pick(&[1.0, 0.5, 1e-300, 1e-9]), "axis-offset"), _ => (anchor + oblique(r), "oblique-offset") };
                 let dir = match r.below(7) { 0 => z(), 1 => axis(r) * 1e-300, 2 => axis(r) * 1e150, 3 => axis(r), 4 => anchor - o, 5 => -o, _ => oblique(r) };
-                out.push((format!("ray{}", DIM), format!("{} {} {} {} {} {}", cls, s.enc(), hv(&o), hv(&dir), hx(*r.pick(&[0.0, 1.0, 1e6, f64::MAX])), b(r.bool()))));
-                out.push((format!("proj{}", DIM), format!("{} {} {} {}", cls, s.enc(), hv(&o), b(r.bool()))));
+                out.push((format!("ray{}", DIM), format!("{}{} {} {} {} {} {}", cls, s.degen(), s.enc(), hv(&o), hv(&dir), hx(*r.pick(&[0.0, 1.0, 1e6, f64::MAX])), b(r.bool()))));
+                out.push((format!("proj{}", DIM), format!("{}{} {} {} {}", cls, s.degen(), s.enc(), hv(&o), b(r.bool()))));
                 if !matches!(s, Sh::Hs(_)) {
-                    out.push((format!("mass{}", DIM), format!("{} {} {}", s.kind(), s.enc(), hx(*r.pick(&[0.0, 1.0, 2.5, 1e-300])))));
+                    out.push((format!("mass{}", DIM), format!("{}{} {} {}", s.kind(), s.degen(), s.enc(), hx(*r.pick(&[0.0, 1.0, 2.5, 1e-300])))));
                     let m = gen_iso(r, true, 2.0);
-                    out.push((format!("bv{}", DIM), format!("{} {} {}", s.kind(), s.enc(), hiso(&m))));
+                    out.push((format!("bv{}", DIM), format!("{}{} {} {}", s.kind(), s.degen(), s.enc(), hiso(&m))));
                 }
             }
             // ---- Triangle / Segment methods
             for _ in 0..300 * k {
-                if let Sh::Tri(a, b2, c) = gen_tri(r) { out.push((format!("trim{}", DIM), format!("degenerate {} {} {}", hv(&a), hv(&b2), hv(&c)))); }
-                if let Sh::Seg(a, b2) = gen_seg(r) { out.push((format!("segm{}", DIM), format!("degenerate {} {}", hv(&a), hv(&b2)))); }
+                let t = gen_tri(r); if let Sh::Tri(a, b2, c) = &t { out.push((format!("trim{}", DIM), format!("triangle{} {} {} {}", t.degen(), hv(a), hv(b2), hv(c)))); }
+                let sg = gen_seg(r); if let Sh::Seg(a, b2) = &sg { out.push((format!("segm{}", DIM), format!("segment{} {} {}", sg.degen(), hv(a), hv(b2)))); }
             }
             // ---- clip helpers: zero-length / perpendicular / end-point-on-end-point configurations
             for _ in 0..400 * k {
@@ -317,6 +328,7 @@ macro_rules! common {
                     _ => (anchor + off, anchor + off + oblique(r), "seg2-oblique"),
                 };
                 let (a2, b2) = if r.bool() { (a2, b2) } else { (b2, a2) };
+                let cls: &str = &format!("{}{}", cls, if a1 == b1 { "+seg1-zero-length" } else { "" });
                 out.push((format!("clip{}", DIM), format!("{} {} {} {} {}", cls, hv(&a1), hv(&b1), hv(&a2), hv(&b2))));
                 gen_clipn(r, cls, &a1, &b1, &a2, &b2, out);
             }
